@@ -50,7 +50,7 @@ theorem opLock_tab (db : DB) (c : Cmd) : (opLock db c).1.tab = db.tab := by
   | ackWaiting h => rfl
   | relockRefused h => rfl
   | timeout => rfl
-  | relock h => unfold applyLock; simp only []; split <;> split <;> simp
+  | relock h => unfold applyLock; simp only []; split <;> split <;> simp [pushJ_tab, pushJ_cfg]
   | grant => unfold applyLock; simp only []; split <;> simp
   | ackGrant => unfold applyLock; simp only []; split <;> simp
   | queue => unfold applyLock; simp
